@@ -1,5 +1,6 @@
 import Proofs.AdjointAll
 import Proofs.PointwiseCalc
+import Proofs.Subgradient
 /-!
 # C01 — Backward of every tensor op yields the exact vector-Jacobian product
 
@@ -167,6 +168,53 @@ theorem rpow_vjp (n : ℝ) (hn : 0 < n) : PointwiseVJP (fun a => rpowForward a n
     (fun x => n ^ x) (fun x => n ^ x * Real.log n) (fun _ => True) := Proofs.Calc.rpow_vjp n hn
 
 end Calc
+
+/-! ### max / min : where the function is not differentiable (ties) any valid subgradient is acceptable
+
+The kernel sends the upstream gradient of every output element to exactly one element of its fibre,
+that element attains the extremum (`argmax_spec`), nothing else receives anything
+(`max_backward_masked`), backward is total (`max_backward_total`), and "one-hot at an arg-max" is a
+subgradient of `max` at *any* arg-max (`max_subgradient_inequality`), so every choice among ties is valid. -/
+section MaxMin
+open Proofs.Subgrad
+variable {K : Type} [Field K] [LinearOrder K] [IsStrictOrderedRing K]
+
+theorem max_selects_argmax (a y : NDArray K) (ha : a.WF) (dim : Option Int) (keep : Bool) (h : maxForward a dim keep = some y)
+    (axes : List Nat) (hax : (match dim with | none => Axes.all | some d => Axes.one d).norm a.shape.length = some axes)
+    (o : Idx) (ho : validIdx y.shape o) :
+    let j := argExt (fun x y => decide (y < x)) a axes keep o
+    validIdx a.shape j ∧ reduceIdx axes keep j = o ∧ y.get o = a.get j ∧
+    ∀ i, validIdx a.shape i → reduceIdx axes keep i = o → a.get i ≤ a.get j :=
+  argmax_spec a y ha dim keep h axes hax o ho
+
+theorem max_vjp_subgradient (a y g b : NDArray K) (ha : a.WF) (dim : Option Int) (keep : Bool)
+    (h : maxForward a dim keep = some y) (hg : g.WF) (hgs : g.shape = y.shape)
+    (hb : maxBackward g a dim keep = some b)
+    (axes : List Nat) (hax : (match dim with | none => Axes.all | some d => Axes.one d).norm a.shape.length = some axes) :
+    b.shape = a.shape ∧ ∀ i, validIdx a.shape i →
+      b.get i = if argExt (fun x y => decide (y < x)) a axes keep (reduceIdx axes keep i) = i
+                then g.get (reduceIdx axes keep i) else 0 :=
+  max_backward_masked a y g b ha dim keep h hg hgs hb axes hax
+
+theorem max_backward_completes (a y g : NDArray K) (ha : a.WF) (dim : Option Int) (keep : Bool)
+    (h : maxForward a dim keep = some y) (hg : g.WF) (hgs : g.shape = y.shape) :
+    ∃ b, maxBackward g a dim keep = some b ∧ b.shape = a.shape :=
+  max_backward_total a y g ha dim keep h hg hgs
+
+theorem one_hot_at_argmax_is_subgradient (ι : Type) (s : List ι) (x x' : ι → K) (j : ι) (hj : j ∈ s)
+    (hmax : ∀ i ∈ s, x i ≤ x j) (m' : K) (hm' : ∀ i ∈ s, x' i ≤ m') : x j + (x' j - x j) ≤ m' :=
+  max_subgradient_inequality ι s x x' j hj hmax m' hm'
+
+theorem min_vjp_subgradient (a y g b : NDArray K) (ha : a.WF) (dim : Option Int) (keep : Bool)
+    (h : minForward a dim keep = some y) (hg : g.WF) (hgs : g.shape = y.shape)
+    (hb : minBackward g a dim keep = some b)
+    (axes : List Nat) (hax : (match dim with | none => Axes.all | some d => Axes.one d).norm a.shape.length = some axes) :
+    b.shape = a.shape ∧ ∀ i, validIdx a.shape i →
+      b.get i = if argExt (fun x y => decide (x < y)) a axes keep (reduceIdx axes keep i) = i
+                then g.get (reduceIdx axes keep i) else 0 :=
+  min_backward_masked a y g b ha dim keep h hg hgs hb axes hax
+
+end MaxMin
 
 /-! ### Non-vacuity: a concrete broadcast (2×1×3 ⊕ 3), a movedim 0→2 on 2×3×4, a slice `[::-2, …, None, [0,0,1]]` are accepted -/
 example : (addForward (α := Int) (ofFn [2, 1, 3] (fun i => (i.getD 0 0 : Int) + i.getD 2 0)) (ofFn [3] (fun i => (i.getD 0 0 : Int)))).map (·.shape)
